@@ -4,6 +4,8 @@
    Event records (props/C48.py: the real mitmproxy.addons.export.Export writes the command to a file, /bin/bash runs
    the file with PATH = a directory of stub programs that dump their argv and stdin; a DEBUG trap logs every simple
    command the shell executes; independent reference decoders turn the argv back into a request):
+     (every record carries nth: the how-manieth export of the SAME flow this is; want is always the request the flow
+      was created with, so an export that alters the flow shows up in the following exports)
      [k |-> "run", fmt |-> "curl" | "httpie", field |-> the field that carries the generated string ("mixed": several),
       cls   |-> the character classes of that string (<<>> for hand-made strings; informational),
       cmds  |-> << names of the simple commands the shell executed, in order >>   ("curl", "http", "printf", ...)
@@ -67,14 +69,18 @@ RawClause(ev) ==
 MonStep(m, ev) ==
   IF ev.k = "run" THEN
     [m EXCEPT !.bad = RunClause(ev),
-              !.wit = @ \cup {ev.fmt}
+              !.wit = @ \cup {ev.fmt} \cup (IF ev.nth > 1 THEN {"command_after_export"} ELSE {})
                         \cup (IF Len(ev.cmds) > 1 THEN {"printf_form"} ELSE {})
                         \cup (IF ev.fmt = "curl" /\ ev.text /\ ~Differs(ev.b) /\ ev.b[1] = 1 /\ Len(ev.tags) = 0 THEN {"plain_ok"} ELSE {})
                         \cup (IF ev.fmt = "curl" /\ ev.text /\ ~Differs(ev.b) /\ Has(ev, "body_ctl") THEN {"ctl_body_ok"} ELSE {})
                         \cup (IF Len(ev.h_w) > 2 THEN {"several_headers"} ELSE {})]
   ELSE IF ev.k = "raw" THEN
-    [m EXCEPT !.bad = RawClause(ev), !.wit = @ \cup {"raw"}]
-  ELSE IF ev.k = "refused" THEN [m EXCEPT !.wit = @ \cup {"refused"}]
+    [m EXCEPT !.bad = RawClause(ev), !.wit = @ \cup {"raw"} \cup (IF ev.nth > 1 THEN {"raw_after_export"} ELSE {})]
+  ELSE IF ev.k = "refused" THEN
+    \* CommandError is the exporter's documented answer (e.g. a body that is no valid text); any other exception is a
+    \* crash inside the export, which produced no command at all
+    [m EXCEPT !.bad = IF ev.exc = "CommandError" THEN <<>> ELSE <<"C48.export_crashed", ev.fmt, ev.exc>>,
+              !.wit = @ \cup {"refused"}]
   ELSE m
 Wit(m) == m.wit
 =============================================================================
